@@ -531,6 +531,9 @@ def catalog(thorough):
     add(get(UEnum, "u16", [("unit", []), ("tuple", [Vec(U8, U8)])], 0, True))
     add(get(UEnum, "u32", [("unit", []), ("tuple", [LE16, Str(U8)])], 0, True))
     add(Flex(Vec(U32, U8), U8)); add(Flex(Vec(U16, U8), U8))
+    # a FlexVec whose offset type is more aligned than its items, behind a prefix that is not a multiple of it
+    add(get(UStruct, [U8, Flex(Str(U8), U16)])); add(get(UStruct, [U8, Flex(V88, U32)]))
+    add(get(UEnum, "u8", [("unit", []), ("tuple", [U8, Flex(U8, U16)])], 0))
     # instantiations of the generic definitions
     for r_, sp in [("GU<u8, 0>", "generic_ustruct(u8,0)"), ("GU<u32, 3>", "generic_ustruct(u32,3)"), ("GU<Bool, 2>", "generic_ustruct(bool,2)"),
                    ("GE<u8, u32, 2>", "generic_uenum(u8,u32,2)"), ("GE<u64, Bool, 1>", "generic_uenum(u64,bool,1)"), ("GE<u16, u8, 0>", "generic_uenum(u16,u8,0)")]:
@@ -546,7 +549,7 @@ def catalog(thorough):
     add(Flex(V88, U64)); add(Flex(V88, USIZE)); add(Flex(U8, BE32)); add(Flex(Str(U8), LE64)); add(Flex(U16, BE16))
     # an item type with a destructor
     pd = Leaf("PDrop", spec="sstruct_with_drop(u8,u16)")
-    add(pd); add(Flex(pd, U8)); add(Vec(pd, U8)); add(Flex(pd, U16))
+    add(pd); add(Flex(pd, U8)); add(Vec(pd, U8)); add(Flex(pd, U16)); add(get(UStruct, [pd, V88])); add(get(SStruct, [U8, pd]))
     # zero-sized items: the payload of every item is empty
     add(Flex(UNIT, U8)); add(Flex(Arr(U32, 0), U16)); add(Flex(get(SStruct, []), LE16))
     global IO_SHAPES
@@ -562,6 +565,7 @@ GENERIC_SRC = r'''
 pub struct PDrop { pub f0: u8, pub f1: u16 }
 impl Drop for PDrop {
     fn drop(&mut self) {
+        harness::guard::note_drop(self as *const Self as usize);
         self.f0 = 0xDD;
         self.f1 = 0xDDDD;
     }
@@ -715,7 +719,65 @@ where
     fn try_default(bytes: &mut [u8]) -> Option<Result<&mut Self, Error>> { Some(Self::default_in_place(bytes)) }
     harness::impl_flex_push_default!();
 }
+
+// ---- generic definitions declared portable: WHICH instantiations implement `Portable` is decided by the
+// where clause the macro generates (C17: "Portable is only implemented when every field type is Portable")
+#[flat(portable = true)]
+pub struct GPS<A: Flat, B: Flat, C: Flat> { pub a: A, pub b: B, pub c: C }
+#[flat(portable = true)]
+pub struct GPT<A: Flat, B: Flat>(pub A, pub B);
+#[flat(portable = true)]
+pub enum GPQ<A: Flat, B: Flat, C: Flat> { X, Y(A, B), Z { c: C } }
+#[flat(sized = false, portable = true)]
+pub struct GPU<A: Flat, E: Flat, L: Flat + flatty::vec::Length> { pub a: A, pub t: FlatVec<E, L> }
+#[flat(sized = false, portable = true)]
+pub enum GPW<A: Flat, B: Flat, L: Flat + flatty::vec::Length> { X, Y(A, FlatString<L>), Z { b: B } }
+#[flat(sized = false, portable = true)]
+pub struct GPF<A: Flat, L: Flat + flatty::vec::Length> { pub a: A, pub t: FlexVec<FlatString<L>, L> }
+
+pub struct ImplProbe<T: ?Sized>(pub core::marker::PhantomData<T>);
+pub trait ViaPortable { fn implements_portable(&self) -> bool; }
+impl<T: ?Sized + flatty::Portable> ViaPortable for ImplProbe<T> { fn implements_portable(&self) -> bool { true } }
+pub trait ViaFallback { fn implements_portable(&self) -> bool; }
+impl<T: ?Sized> ViaFallback for &ImplProbe<T> { fn implements_portable(&self) -> bool { false } }
 '''
+
+PROBE_ARGS = ["u8", "Bool", "le::U16", "be::F32", "()", "[le::I32; 2]", "u16", "f32", "usize", "[u32; 1]"]
+PROBE_LENS = ["u8", "le::U16", "be::U64", "u16", "u32", "usize"]
+def portable_probes_src():
+    import itertools
+    rows = []; seen = set()
+    def row(ty, args):
+        if ty in seen: return
+        seen.add(ty)
+        rows.append("        PortableProbe { ty: \"%s\", implements: (&ImplProbe::<%s>(core::marker::PhantomData)).implements_portable(), args: &[%s] },\n"
+                    % (ty, ty, ", ".join("\"%s\"" % a for a in args)))
+    # every argument type in every position (the others portable), every pair of positions with two natives,
+    # and a few all-portable / all-native instantiations; full products would take rustc tens of minutes
+    def sweep(name, pools):
+        k = len(pools)
+        base = [["u8", "le::U16"][i % 2] if pools[i] is PROBE_ARGS else ["u8", "le::U16"][i % 2] for i in range(k)]
+        for i in range(k):
+            for a in pools[i]:
+                args = list(base); args[i] = a
+                row("%s<%s>" % (name, ", ".join(args)), args)
+        for i, j in itertools.combinations(range(k), 2):
+            for a in pools[i][-4:]:
+                for b in pools[j][-3:]:
+                    args = list(base); args[i] = a; args[j] = b
+                    row("%s<%s>" % (name, ", ".join(args)), args)
+        for combo in itertools.product(*pools):
+            row("%s<%s>" % (name, ", ".join(combo)), list(combo))
+    sweep("GPS", [PROBE_ARGS] * 3); sweep("GPQ", [PROBE_ARGS] * 3); sweep("GPT", [PROBE_ARGS] * 2)
+    sweep("GPU", [PROBE_ARGS, PROBE_ARGS, PROBE_LENS]); sweep("GPW", [PROBE_ARGS, PROBE_ARGS, PROBE_LENS]); sweep("GPF", [PROBE_ARGS, PROBE_LENS])
+    s = "pub struct PortableProbe { pub ty: &'static str, pub implements: bool, pub args: &'static [&'static str] }\n"
+    s += "/// is the argument type portable per the reference description?\npub fn probe_arg_portable() -> Vec<(&'static str, bool)> {\n    vec![\n"
+    for a in sorted(set(PROBE_ARGS + PROBE_LENS)):
+        s += "        (\"%s\", <%s as Node>::desc().is_portable()),\n" % (a, a)
+    s += "    ]\n}\n"
+    s += "/// instantiations of the generic portable definitions: does each implement `Portable`?\n"
+    s += "pub fn portable_probes() -> Vec<PortableProbe> {\n    vec![\n%s    ]\n}\n" % "".join(rows)
+    return s, len(rows)
 
 def main():
     out = sys.argv[1]
@@ -750,9 +812,11 @@ def main():
     for t in IO_SHAPES:
         io += "        Box::new(harness::IoShapeOf::<%s>::new(\"%s\")),\n" % (t.rust(), t.spec())
     src.append(io + "    ]\n}\n")
+    psrc, nprobes = portable_probes_src()
+    src.append(psrc)
     src.append("pub const N_QUICK: usize = %d;\npub const N_THOROUGH: usize = %d;\n" % (len(quick), len(quick) + len(extra)))
     open(out, "w").write("\n".join(src))
-    print("items=%d (quick items=%d) quick shapes=%d thorough shapes=%d" % (len(Item.order), nq_items, len(quick), len(quick) + len(extra)))
+    print("items=%d (quick items=%d) quick shapes=%d thorough shapes=%d portable-impl probes=%d" % (len(Item.order), nq_items, len(quick), len(quick) + len(extra), nprobes))
 
 if __name__ == "__main__":
     main()
